@@ -808,7 +808,7 @@ func (ds *Dataset) updateDataset(newItemCount int64, entities []*Entity) error {
 				}
 			}
 		}
-	} else if newItemCount > 0 {
+	} else if newItemCount > 0 && !ds.markedForDeletion {
 		dsInfo, err := ds.store.NamespaceManager.GetDatasetNamespaceInfo()
 		if err != nil {
 			return err
